@@ -13,7 +13,7 @@
                             `bcastLock` τ   wsclientsMu.Lock(); the clients to wake are those in the map now
                             `wake c` / `wakeCoalesced c`   select { case cl.resultsCh <- : default: }
                             `bcastDone`     wsclientsMu.Unlock()
-    handleWatch             `admit` / `refuse`  the `closing` test and wsclientsWG.Add(1) (under wsclientsMu)
+    handleWatch             `admitC` / `refuse` the `closing` test and wsclientsWG.Add(1) (under wsclientsMu)
                             `acceptFail c`      websocket.Accept failed: wsclientsWG.Done()
     handler goroutine       `register c`        w.wsclients[cl] = {}       (under wsclientsMu)
       writeLoop             `readRes c` τ       cl.w.getRes()
@@ -80,7 +80,7 @@ structure State where
 inductive Step where
   | change | request | sendReq | recv | compileStart | fileRead | compileEnd (v : Ver) | setRes (v : Ver) | bcastLock
   | wake (c : Nat) | wakeCoalesced (c : Nat) | bcastDone
-  | admit | refuse | acceptFail (c : Nat) | register (c : Nat) | readRes (c : Nat) | readLog (c : Nat) (r : Option Ver)
+  | admitC | refuse | acceptFail (c : Nat) | register (c : Nat) | readRes (c : Nat) | readLog (c : Nat) (r : Option Ver)
   | write (c : Nat) (v : Ver) (ok : Bool) | recvWake (c : Nat) | woken (c : Nat) | ctxDone (c : Nat)
   | unregister (c : Nat) | exit (c : Nat) | done (c : Nat) | drop (c : Nat)
   | closeBegin | closeNoop | cancel | closeWait | closeReturn | shutdown
@@ -180,7 +180,7 @@ def step (s : State) : Step → Option State
     match s.comp with
     | .waking _ [] => some { s with comp := .idle }
     | _ => none
-  | .admit =>
+  | .admitC =>
     if !s.closing && lockFree s then
       some { s with clients := s.clients ++ [newClient .admitted], wg := s.wg + 1 }
     else none
@@ -224,7 +224,7 @@ def step (s : State) : Step → Option State
   | .closeNoop => if s.closing && lockFree s then some s else none
   | .cancel =>
     match s.close with
-    | .begun => some { s with cancelled := true }
+    | .begun => if !s.cancelled then some { s with cancelled := true } else none
     | _ => none
   | .closeWait =>
     match s.close with
@@ -246,7 +246,7 @@ def run : State → List Step → Option State
     (poll ticker, handleRoot), the calls of close() and the shutdown signal.  Everything else is the program's own
     progress. -/
 def external (s : State) : Step → Bool
-  | .change | .admit | .refuse | .drop _ | .closeBegin | .closeNoop | .shutdown => true
+  | .change | .admitC | .refuse | .drop _ | .closeBegin | .closeNoop | .shutdown => true
   | .request => !s.dirty
   | _ => false
 
